@@ -115,6 +115,9 @@ def step0 (m : S) (op impl : String) : S × StepOut :=
     | _, _ => (m, { model := "bad-op" })
   | ["cut", a] => match a.toNat? with | some a => simple (.cut a) (isStarting m a) | none => (m, { model := "bad-op" })
   | ["kill", a] => match a.toNat? with | some a => simple (.kill a) (isStarting m a) | none => (m, { model := "bad-op" })
+  -- kill and "pre_start may return Ok" pending at the same poll: the kill wins (the signal port is
+  -- polled before the guarded work), so the model step is the plain kill
+  | ["killrace", a] => match a.toNat? with | some a => simple (.kill a) (isStarting m a) | none => (m, { model := "bad-op" })
   | ["stop", a] => match a.toNat? with | some a => simple (.stop a) | none => (m, { model := "bad-op" })
   | ["obs"] =>
     let orc := match parseSnap impl with
